@@ -362,6 +362,53 @@ func vxDstPages(min ltx.TXID) []vxPg {
 // The new level-1 file must start where level 1 ended, end at the newest
 // replicated file, equal the replica's level-0 files applied in order, and the
 // retention pass that follows must keep the newest state restorable.
+// VxC06Backlog: one compaction over a long backlog of source files (compaction was
+// down for a while, a burst of small transactions): whatever a pass decides to take,
+// the file it writes holds exactly the sources of the range in its name, applied
+// in order, and the passes that follow complete the level without gap or overlap.
+func VxC06Backlog() {
+	n := vx.Param("N", 300)
+	c := &vxStoreClient{}
+	c.put(&vxLTX{level: 0, min: 1, max: 1, commit: 2, ts: 1000, pages: []vxPg{{pgno: 1, tag: 1}, {pgno: 2, tag: 1}}})
+	tags := make([]uint64, n+2)
+	tags[1] = 1
+	for t := 2; t <= n+1; t++ {
+		// page 1 is rewritten by every transaction; the images of the last few are symbolic
+		tag := uint64(t)
+		if t > n-2 {
+			tag = vx.U64("tag")
+		}
+		tags[t] = tag
+		c.put(&vxLTX{level: 0, min: ltx.TXID(t), max: ltx.TXID(t), commit: 2, ts: int64(1000 + t), pages: []vxPg{{pgno: 1, tag: tag}}})
+	}
+	comp := NewCompactor(c, vxLogger())
+	cache := map[int]*ltx.FileInfo{}
+	comp.CacheGetter = func(level int) (*ltx.FileInfo, bool) { info, ok := cache[level]; return info, ok }
+	comp.CacheSetter = func(level int, info *ltx.FileInfo) { cache[level] = info }
+	ctx := context.Background()
+	next := ltx.TXID(1)
+	for pass := 0; pass < 4 && int(next) <= n+1; pass++ {
+		info, err := comp.Compact(ctx, 1)
+		vx.Assert("backlog-pass-succeeds", err == nil && info != nil)
+		if err != nil || info == nil {
+			return
+		}
+		vx.Assert("backlog-pass-continues-the-level", info.MinTXID == next && info.MaxTXID >= next && int(info.MaxTXID) <= n+1)
+		out, derr := vxDecodeLTX(c.data[vxKey(1, info.MinTXID, info.MaxTXID)])
+		vx.Assert("backlog-output-decodes", derr == nil)
+		if derr != nil {
+			return
+		}
+		// the file named a..b is what applying a..b in order gives: page 1 as b wrote it
+		ok := out.min == info.MinTXID && out.max == info.MaxTXID && len(out.pages) >= 1 && out.pages[0].pgno == 1 &&
+			out.pages[0].tag == tags[int(info.MaxTXID)] && out.ts == int64(1000+int(info.MaxTXID))
+		vx.Assert("backlog-output-is-the-ordered-application-of-its-range", ok)
+		next = info.MaxTXID + 1
+	}
+	vx.Assert("backlog-drained-within-four-passes", int(next) == n+2)
+	vx.Assert("level-contiguous", comp.VerifyLevelConsistency(ctx, 1) == nil)
+}
+
 // VxC06LevelEnd: the newest file of a level - where every compaction into and out
 // of that level continues - as the DB reads it through its per-level cache, while
 // the listing that fills the cache may break off part-way. An end taken from a
